@@ -6,8 +6,80 @@ package rosmar
 
 import (
 	"database/sql"
+	"reflect"
 	"sort"
+	"strings"
+	"unsafe"
 )
+
+// Private state is reached by TYPE (or, failing that, by name) through reflection wherever possible, so
+// that behaviour-preserving refactorings - renamed fields, a pointer turned into a value - do not
+// break the instrumented build. Only package-level identifiers (cluster, hlc) are named directly.
+
+// verifField returns the first field of the struct v (or *v) for which pick returns true.
+func verifField(v any, pick func(f reflect.StructField) bool) (reflect.Value, bool) {
+	rv := reflect.ValueOf(v)
+	for rv.Kind() == reflect.Pointer {
+		if rv.IsNil() {
+			return reflect.Value{}, false
+		}
+		rv = rv.Elem()
+	}
+	if rv.Kind() != reflect.Struct {
+		return reflect.Value{}, false
+	}
+	for i := 0; i < rv.NumField(); i++ {
+		if pick(rv.Type().Field(i)) {
+			f := rv.Field(i)
+			if f.CanAddr() {
+				f = reflect.NewAt(f.Type(), unsafe.Pointer(f.UnsafeAddr())).Elem() // readable even if unexported
+			}
+			return f, true
+		}
+	}
+	return reflect.Value{}, false
+}
+
+func byName(names ...string) func(reflect.StructField) bool {
+	return func(f reflect.StructField) bool {
+		for _, n := range names {
+			if strings.EqualFold(f.Name, n) {
+				return true
+			}
+		}
+		return false
+	}
+}
+
+func verifDB(b *Bucket) *sql.DB {
+	if f, ok := verifField(b, func(f reflect.StructField) bool { return f.Type == reflect.TypeOf((*sql.DB)(nil)) }); ok {
+		db, _ := f.Interface().(*sql.DB)
+		return db
+	}
+	return nil
+}
+
+func verifBool(v any, names ...string) bool {
+	if f, ok := verifField(v, byName(names...)); ok && f.Kind() == reflect.Bool {
+		return f.Bool()
+	}
+	return false
+}
+
+// verifFeedMap finds the map from collection name to the slice of registered feeds.
+func verifFeedMap(b *Bucket) (reflect.Value, bool) {
+	return verifField(b, func(f reflect.StructField) bool {
+		return f.Type.Kind() == reflect.Map && f.Type.Elem().Kind() == reflect.Slice && strings.Contains(f.Type.Elem().String(), "dcpFeed")
+	})
+}
+
+func verifExpManager(b *Bucket) (any, bool) {
+	f, ok := verifField(b, func(f reflect.StructField) bool { return strings.Contains(f.Type.String(), "expiryManager") })
+	if !ok || (f.Kind() == reflect.Pointer && f.IsNil()) {
+		return nil, false
+	}
+	return f.Interface(), true
+}
 
 // VerifDocRow is one raw row of the documents table.
 type VerifDocRow struct {
@@ -57,11 +129,14 @@ type VerifDump struct {
 }
 
 // VerifSQLDB returns the shared database handle (even if this handle is closed).
-func VerifSQLDB(b *Bucket) *sql.DB { return b.sqliteDB }
+func VerifSQLDB(b *Bucket) *sql.DB { return verifDB(b) }
 
 // VerifDumpAll reads every table through the shared database handle, bypassing the closed flag.
 func VerifDumpAll(b *Bucket) (d VerifDump, err error) {
-	db := b.sqliteDB
+	db := verifDB(b)
+	if db == nil {
+		return d, sql.ErrConnDone
+	}
 	if err = db.QueryRow(`SELECT name, uuid, lastCas FROM bucket`).Scan(&d.BucketName, &d.BucketUUID, &d.BucketLastCas); err != nil {
 		return
 	}
@@ -150,64 +225,99 @@ func VerifDumpAll(b *Bucket) (d VerifDump, err error) {
 
 // VerifInUse reports how many pooled connections of the bucket's database are checked out.
 func VerifInUse(b *Bucket) int {
-	if b == nil || b.sqliteDB == nil {
+	if b == nil || verifDB(b) == nil {
 		return 0
 	}
-	return b.sqliteDB.Stats().InUse
+	return verifDB(b).Stats().InUse
 }
 
-func VerifIsClosed(b *Bucket) bool   { return b.closed }
-func VerifIsInMemory(b *Bucket) bool { return b.inMemory }
+func VerifIsClosed(b *Bucket) bool { return verifBool(b, "closed", "isClosed") }
+func VerifIsInMemory(b *Bucket) bool {
+	if _, ok := verifField(b, byName("inMemory", "isInMemory")); ok {
+		return verifBool(b, "inMemory", "isInMemory")
+	}
+	return strings.Contains(b.GetURL(), "mode=memory")
+}
 
 // VerifDBOpen reports whether the shared sql.DB still answers a trivial query.
 func VerifDBOpen(b *Bucket) bool {
-	if b.sqliteDB == nil {
+	db := verifDB(b)
+	if db == nil {
 		return false
 	}
 	var one int
-	return b.sqliteDB.QueryRow(`SELECT 1`).Scan(&one) == nil
+	return db.QueryRow(`SELECT 1`).Scan(&one) == nil
 }
 
 // VerifHandleFeedMapNil reports whether this handle lost its reference to the shared feed map.
-func VerifHandleFeedMapNil(b *Bucket) bool { return b.collectionFeeds == nil }
+func VerifHandleFeedMapNil(b *Bucket) bool {
+	m, ok := verifFeedMap(b)
+	return ok && m.IsNil()
+}
 
 // VerifFeedCounts returns the number of registered live feeds per collection as seen by this handle.
 func VerifFeedCounts(b *Bucket) map[string]int {
 	out := map[string]int{}
-	for name, feeds := range b.collectionFeeds {
-		out[name.String()] = len(feeds)
+	if m, ok := verifFeedMap(b); ok && !m.IsNil() {
+		it := m.MapRange()
+		for it.Next() {
+			name := it.Key().Interface()
+			if s, ok := name.(interface{ String() string }); ok {
+				out[s.String()] = it.Value().Len()
+			}
+		}
 	}
 	return out
 }
 
 // VerifRegistry returns the registry's refcounts and the URLs of registered buckets.
 func VerifRegistry() (counts map[string]uint, urls map[string]string) {
-	cluster.lock.Lock()
-	defer cluster.lock.Unlock()
 	counts = map[string]uint{}
 	urls = map[string]string{}
-	for k, v := range cluster.bucketCount {
-		counts[k] = v
+	if f, ok := verifField(cluster, func(f reflect.StructField) bool {
+		return f.Type.Kind() == reflect.Map && (f.Type.Elem().Kind() == reflect.Uint || f.Type.Elem().Kind() == reflect.Int || f.Type.Elem().Kind() == reflect.Uint32 || f.Type.Elem().Kind() == reflect.Int64 || f.Type.Elem().Kind() == reflect.Uint64)
+	}); ok {
+		it := f.MapRange()
+		for it.Next() {
+			if it.Value().CanUint() {
+				counts[it.Key().String()] = uint(it.Value().Uint())
+			} else {
+				counts[it.Key().String()] = uint(it.Value().Int())
+			}
+		}
 	}
-	for k, v := range cluster.buckets {
-		urls[k] = v.url
+	for name, b := range verifRegistryBuckets() {
+		urls[name] = b.GetURL()
 	}
 	return
 }
 
+func verifRegistryBuckets() map[string]*Bucket {
+	if f, ok := verifField(cluster, func(f reflect.StructField) bool { return f.Type == reflect.TypeOf(map[string]*Bucket{}) }); ok {
+		m, _ := f.Interface().(map[string]*Bucket)
+		return m
+	}
+	return nil
+}
+
 // VerifResetGlobals resets process-global state between executions so that replays are identical.
 func VerifResetGlobals() {
-	cluster = &bucketRegistry{
-		bucketCount: make(map[string]uint),
-		buckets:     make(map[string]*Bucket),
+	// a fresh registry: every map field of the registry struct is replaced by an empty map
+	fresh := reflect.New(reflect.TypeOf(cluster).Elem())
+	for i := 0; i < fresh.Elem().NumField(); i++ {
+		f := fresh.Elem().Field(i)
+		if f.Kind() == reflect.Map {
+			reflect.NewAt(f.Type(), unsafe.Pointer(f.UnsafeAddr())).Elem().Set(reflect.MakeMap(f.Type()))
+		}
 	}
+	cluster = fresh.Interface().(*bucketRegistry)
 	hlc = NewHybridLogicalClock(0)
 }
 
 // VerifRegistryBuckets returns the canonical bucket objects still in the registry.
 func VerifRegistryBuckets() []*Bucket {
 	var out []*Bucket
-	for _, b := range cluster.buckets {
+	for _, b := range verifRegistryBuckets() {
 		out = append(out, b)
 	}
 	return out
@@ -233,7 +343,22 @@ func VerifActiveFeedCount() int32 { return activeFeedCount }
 
 // VerifExpiryState returns the expiry manager's idea of the next deadline and whether a timer exists.
 func VerifExpiryState(b *Bucket) (next uint32, hasTimer bool) {
-	return *b.expManager.nextExp, b.expManager.timer != nil
+	em, ok := verifExpManager(b)
+	if !ok {
+		return 0, false
+	}
+	if f, ok := verifField(em, byName("nextExp", "next", "nextExpiry")); ok {
+		for f.Kind() == reflect.Pointer && !f.IsNil() {
+			f = f.Elem()
+		}
+		if f.CanUint() {
+			next = uint32(f.Uint())
+		}
+	}
+	if f, ok := verifField(em, byName("timer", "expTimer")); ok && f.Kind() == reflect.Pointer {
+		hasTimer = !f.IsNil()
+	}
+	return
 }
 
 // VerifResetHLC replaces the process-wide clock by a fresh one, as a newly started process would have.
